@@ -6,7 +6,7 @@
 // only executes and records what happened at the system boundary.
 //
 // case: {"id":n, "argv":[...], "stdin":"hex", "cycle":"hex"?, "cap":n?, "intr":[call idx...]?,
-//        "rfail":off?, "wfail":off?, "efail":off?, "wmax":n?, "log":bool?, "timeout_ms":n?,
+//        "rfail":off?, "rkind":"Other"|"UnexpectedEof"|"BrokenPipe"|"ConnectionReset"|"TimedOut"|"InvalidData"|"WouldBlock"|"NotFound"|"PermissionDenied"? (kind of the injected read error), "wfail":off?, "efail":off?, "wmax":n?, "log":bool?, "timeout_ms":n?,
 //        "files":["hex",...]?   (written to temporary files; "@FILE<i>" in argv is replaced by the path, "@DIR" by the directory)
 //        "fifo":{"prefix":"hex","cycle":"hex","cap":n}?  (a named pipe fed by a thread; "@FIFO" in argv is replaced by its path;
 //                                                        obs.pulled = bytes the feeder handed over, obs.capped = cap reached)}
@@ -69,6 +69,7 @@ struct InReader {
     pos: usize,
     intr: Vec<usize>,
     rfail: Option<usize>,
+    rkind: io::ErrorKind,
     chunks: Vec<usize>,
     calls: usize,
     log: bool,
@@ -90,7 +91,7 @@ impl Read for InReader {
             if self.log {
                 sh.ev.push(json!("rf"));
             }
-            return Err(io::Error::new(io::ErrorKind::Other, "injected read fault"));
+            return Err(io::Error::new(self.rkind, "injected read fault"));
         }
         if buf.is_empty() {
             return Ok(0);
@@ -316,6 +317,17 @@ fn run_case(case: &Value) -> Value {
         .map(|a| a.iter().filter_map(|x| x.as_u64().map(|u| u as usize)).collect())
         .unwrap_or_default();
     let rfail = case["rfail"].as_u64().map(|u| u as usize);
+    let rkind = match case["rkind"].as_str().unwrap_or("Other") {
+        "UnexpectedEof" => io::ErrorKind::UnexpectedEof,
+        "BrokenPipe" => io::ErrorKind::BrokenPipe,
+        "ConnectionReset" => io::ErrorKind::ConnectionReset,
+        "TimedOut" => io::ErrorKind::TimedOut,
+        "InvalidData" => io::ErrorKind::InvalidData,
+        "WouldBlock" => io::ErrorKind::WouldBlock,
+        "NotFound" => io::ErrorKind::NotFound,
+        "PermissionDenied" => io::ErrorKind::PermissionDenied,
+        _ => io::ErrorKind::Other,
+    };
     let chunks: Vec<usize> = case["chunks"]
         .as_array()
         .map(|a| a.iter().filter_map(|x| x.as_u64().map(|u| u as usize)).collect())
@@ -350,6 +362,7 @@ fn run_case(case: &Value) -> Value {
             pos: 0,
             intr: intr.clone(),
             rfail,
+            rkind,
             chunks: chunks.clone(),
             calls: 0,
             log,
